@@ -11,6 +11,7 @@ import SlVerif.Drv.Endemic
 import SlVerif.Drv.Pprf
 import SlVerif.Drv.Bip32
 import SlVerif.Drv.SoftSpoken
+import SlVerif.Drv.Rvole
 /-
   sldriver: line-protocol server around the executable models.
   request:  `<ns> <op> <args…>`           (one line)
@@ -33,6 +34,7 @@ def dispatch (O : Query → IO Bytes) (toks : List String) : IO String := do
   | "ss" :: rest => do pure ((← Drv.SoftSpoken.handle O rest).getD "!bad-op")
   | "bip32" :: rest => do pure ((← Drv.Bip32.handle O rest).getD "!bad-op")
   | "venc" :: rest => do pure ((← Drv.VerEnc.handle O rest).getD "!bad-op")
+  | "rvole" :: rest => do pure ((← Drv.Rvole.handle O rest).getD "!bad-op")
   | ["ping"] => pure "pong"
   | _ => pure "!bad-op"
 
